@@ -13,7 +13,9 @@ CHECKS = {
         "vmapped trajectories through the Gym-style step inside one lax.scan, per-segment action rules drawn from {space sample, low "
         "corner, high corner, zero/middle, held corner, energy pumping}; every observation is checked against the declared space "
         "(shape, dtype, bounds, NaN; plus the space's own contains on a sample), sampled actions are members, rewards finite float "
-        "scalars, flags boolean scalars, repeated calls with a second environment object constructed in between are identical. The "
+        "scalars, flags boolean scalars, repeated calls with a second environment object constructed in between are identical. Wrapper "
+        "stacks cover TimeLimit, ClipAction, RescaleAction, FlattenObservation, ClipObservation, RescaleObservation with asymmetric "
+        "targets, ClipReward and Identity. The "
         "runner asserts that MountainCar/Acrobot/Pendulum trajectories actually reach a bound.",
         design="DESIGN.md §4 C02",
         note="Trusted: reachability through the auto-resetting step only; float32 default mode. Compile-bound for MuJoCo/G1 (one configuration each in the quick tier). 11 mutants.",
@@ -33,7 +35,8 @@ CHECKS = {
         text="Generated rollouts (all 2^T done patterns for T<=9 quick / T<=12 thorough, Hypothesis-drawn larger ones) are fed to "
         "RolloutBuffer.compute_returns_and_advantages in x64 and compared with a float64 loop written from the statement; "
         "metamorphic cut law, lambda=0/1 limits, vmapped streams, and buffers captured from the real iteration() of PPO/A2C/REINFORCE "
-        "on finite MDPs are checked per environment row. Sampling cannot prove the identity for all reals; the done-pattern dimension "
+        "on finite MDPs are checked per environment row against GAE cut at the episode ends the environment produced (replayed by "
+        "the reference interpreter, not read from the buffer's done column). Sampling cannot prove the identity for all reals; the done-pattern dimension "
         "is exhaustive for small T.",
         design="DESIGN.md §4 C03",
         note="Trusted: NumPy float64 arithmetic, vlib/refs.py GAE loop (validated by 6 mutants of rollout.py, all caught).",
@@ -74,7 +77,10 @@ CHECKS = {
         "real MLP networks from drawn keys: DQN.dqn_loss value and online gradient vs r+gamma*(1-terminated)*Q_tgt(s',argmax Q_on(s')); "
         "SAC.sac_train on a buffer of exactly batch_size rows with a deterministic policy double: reported q_loss vs the reference, "
         "the returned critics vs an Adam step on the semi-gradient computed by the harness, and bit-identical critics with/without "
-        "the actor update. Mismatches are bucketed by recognisable root cause.",
+        "the actor update. Part iteration: the real reset()+iteration() of DQN and SAC (1 and 2 environments, generated finite MDPs) "
+        "from a state whose target networks were replaced by independent ones, batch_size = every stored row: the online networks "
+        "it returns equal one optimiser step on the TD objective built from the state's target networks. Mismatches are bucketed by "
+        "recognisable root cause.",
         design="DESIGN.md §4 C07",
         note="Trusted: the networks' own forward passes; optax.adam; NumPy float64. 12 mutants of dqn.py/sac.py all caught.",
     ),
@@ -112,7 +118,8 @@ CHECKS = {
     "C09": dict(
         technique="property-based testing (Hypothesis) of the buffer API with id-encoded rows; end-to-end visit-count recovery through PPO.train by gradient tagging",
         text="Buffers whose every leaf encodes the sample id: flatten_axes / batch_indices / gather / batches / sample checked for "
-        "partition and row integrity over generated (num_envs, num_steps, batch_size, pytree observation kinds, keys); PPO.train run "
+        "partition and row integrity over generated (num_envs, num_steps, batch_size, pytree observation kinds, keys, every accepted "
+        "spelling and order of batch_axes); PPO.train run "
         "end-to-end with a tagging policy (value table per sample, plain SGD, value loss only) so visit counts are recovered exactly "
         "from (v-ret)=2^-k for seeded (num_envs, num_steps, num_batches, num_epochs) configurations x 12 keys: at most once per epoch, "
         "exactly floor(N/B)*B per epoch, dropped set varies with the key, epochs reshuffle; misaligned row fields poison the value "
@@ -165,7 +172,8 @@ CHECKS = {
         technique="round-trip property-based testing (Hypothesis) over policy classes x spaces x architectures x path spellings x overwrite histories; negative cases for shape mismatches",
         text="serialize -> deserialize with the same constructor arguments and a different key in fresh temporary directories (with/"
         "without .eqx, nested new directories, spaces, paths already holding an older checkpoint): every array leaf bit-identical "
-        "(dtype, shape, bytes) and equal outputs; loading into a policy with one architecture argument / observation / action "
+        "(dtype, shape, bytes) and equal outputs, for policies saved exactly as constructed and for ones rebuilt with moved parameters "
+        "(Dict observation spaces with keys in non-sorted order); loading into a policy with one architecture argument / observation / action "
         "dimension changed or two arguments swapped must raise.",
         design="DESIGN.md §4 C18",
         note="Trusted: filesystem; Python-scalar fields compared at float32 precision. 6 mutants caught, 2 equivalent mutants discarded (equinox re-adds the suffix itself).",
@@ -178,7 +186,7 @@ CHECKS = {
         "LoggingCallback with a recording back end, LoggingCallback with Console+TensorBoard, a list of two) must reproduce the "
         "unobserved run up to reassociation-level rounding (rtol 1e-4 / atol 1e-5 on float leaves, integer leaves exactly: an observed "
         "run is a different XLA program and was measured 1 ulp apart; a desynchronised key or observer feedback moves parameters by "
-        "O(learning rate)).",
+        "O(learning rate)). One single-iteration run per algorithm checks the same laws on the shortest possible training.",
         design="DESIGN.md §4 C11",
         note="Trusted: bit-identity within one process/XLA build is what the statement needs. Each (algorithm, env, config, observer structure) costs a learn() compile, so the number of configurations is small (10 quick / 40 thorough). 4 mutants caught, 1 equivalent discarded.",
     ),
@@ -189,7 +197,8 @@ CHECKS = {
         "sampled action prefixes; (b1) the exact filter_vmap(collect_rollout) call of iteration() vs per-environment collections on "
         "generated finite MDPs; (b2) through the real iteration() with the buffer captured from ctx.locals: replacing only env j's "
         "start state must leave every field of every other environment's slice bit-identical (incl. advantages, returns, carried "
-        "state), on-policy and for DQN's per-env replay buffers.",
+        "state), on-policy and for DQN's per-env replay buffers; (b3) vectorised DQN collection acts with the current online policy; "
+        "(b4) N environments started in the same state under a uniform policy never run in lock-step through reset()/iteration().",
         design="DESIGN.md §4 C12",
         note="Trusted: float32 reassociation tolerance: 1e-5/1e-6 element-wise for classic control; for MuJoCo/G1 only the physical state and task bookkeeping are compared, norm-wise per leaf (2e-3; 5e-2 across one frame-skipped contact step) because float32 contact-solver internals differ by percents between the vmapped and the single program. Single transitions only.",
     ),
@@ -200,7 +209,8 @@ CHECKS = {
         "Gymnasium produced, CartPole(Euler) trajectories up to 200 steps (1e-9), initial-state ranges over 4096 keys. MuJoCo (11 envs, "
         "process pool): model/frame_skip/dt/control-range identity, reset observation vs _get_obs() after set_state, Gymnasium's own "
         "step() judging lerax's successor state (observation, reward, every shared reward component, termination; first step vs later "
-        "steps; constructor options in the thorough tier), single control step of MJX vs C MuJoCo incl. presence of external contact "
+        "steps), every documented constructor flag toggled and drawn weight/range changes compared with Gymnasium built with the same "
+        "options (observation/reward/termination/info functions on states of the default dynamics), single control step of MJX vs C MuJoCo incl. presence of external contact "
         "forces.",
         design="DESIGN.md §4 C17",
         note="Trusted: Gymnasium 1.3 and MuJoCo C as the reference; MJX-vs-C solver differences are tolerated by a floor fraction (layer mj_physics). 18 mutants (9 fix reversals).",
